@@ -192,8 +192,8 @@ def product_check(case):
     err = float(np.abs(vm - pred_r).max())
     if err > 1e-12:
         site = "ExtendedNonlocalGame:product_pred"
-        if float(np.abs(vm - pred_r.real).max()) <= 1e-12:
-            site = "ExtendedNonlocalGame:product_pred_imag"  # exactly the real part survived
+        if np.iscomplexobj(pred) and float(np.abs(vm - rg.product_game(prob, pred.real.astype(complex), reps)[1]).max()) <= 1e-12:
+            site = "ExtendedNonlocalGame:product_pred_imag"  # it is the product game of the REAL PARTS of the operators
         return viol(f"pred_mat of the repeated game is not V(a_1,b_1|x_1,y_1) (x) ... (x) V(a_r,b_r|x_r,y_r) in Kronecker order "
                     f"(max deviation {err:.3g})", site=site, observed=err, nontrivial=nontriv)
     ncalls = 1
@@ -663,13 +663,22 @@ def _clone_closed_form(kets):
     return None
 
 
+def _clone_prior(n, key):
+    if key == "uniform" or n == 1:
+        return np.ones(n) / n
+    if key == "ramp":
+        w = np.arange(n, 0, -1, dtype=float)
+        return w / w.sum()
+    return rg.generic_dist(n, int(key[1:]))
+
+
 def clone_check(case):
     from toqito.state_opt import optimal_clone
 
     names, reps, form = case["kets"], case["reps"], case["form"]
     vs = [catalog.ket(2, k) for k in names]
     n = len(vs)
-    p = np.ones(n) / n if case["prior"] == "uniform" else catalog.prior(n, case["prior"])
+    p = _clone_prior(n, case["prior"])
     if form in ("col", "col_nd"):
         states = [v.reshape(-1, 1).astype(complex) for v in vs]
     elif form == "colreal":
